@@ -202,6 +202,7 @@ def r10_refusal_reasons(prog, ctx, g, f, width, signed):
         return
     eb = set(cfg.block_of(r) for r in errs)
     bad, seen = None, 0
+    unknown9 = False
     cb = cfg.block_of(call)
     for (b, i, s2) in cfg.edges():
         if s2 not in eb or b in eb or cb not in cfg.reachable(b, forward=False):
@@ -250,11 +251,16 @@ def r10_refusal_reasons(prog, ctx, g, f, width, signed):
             why = "any errno left behind refuses"
         else:
             why = "`%s` is not one of the documented reasons" % lit
+            if not any(t9 and t9 in lit.atom for t9 in (val, endp, "__errno_location")):
+                unknown9 = True               # a test on something the rule does not follow (a helper's verdict ...)
+                ok = True
         if not ok and bad is None:
             bad = (cfg.blocks[b].cond, why)
     if bad:
         ctx.fail("R10", "%s refuses only for the documented reasons" % g, bad[0].where,
                  "%s: a literal the type can represent is answered with ECONF_VALUE_CONVERSION_ERROR" % bad[1], key="over-refusal:%s" % g)
+    elif unknown9:
+        ctx.inconclusive("R10", "%s refuses only for the documented reasons" % g, errs[0].where, "a test that leads to the conversion error is not about the converted value, the end pointer or errno")
     elif seen:
         ctx.ok("R10", "%s refuses only for the documented reasons" % g, errs[0].where, "%d tests lead to the conversion error, each a documented one" % seen)
     else:
